@@ -107,11 +107,14 @@ func (o *vectorOperator) initOutputs(ctx context.Context) error {
 	}()
 
 	lowCardSide, err := o.rhs.Series(ctx)
+	// Always wait for the other side: it must not go on loading series
+	// (and using the storage) after this operator has failed.
+	lhErr := <-errChan
 	if err != nil {
 		return err
 	}
-	if err := <-errChan; err != nil {
-		return err
+	if lhErr != nil {
+		return lhErr
 	}
 
 	o.lhSampleIDs = highCardSide
